@@ -119,8 +119,20 @@ CHECKS["C18"] = ("model_checking",
     "drains. The transitions TLC explored (quick: 700 seeded covering paths per script set; thorough: all) are replayed on a real Agent with real threads parked at "
     "wrapped callables (discovery lookup, clock read before the counter increment, subscription, lock acquisition), the real state compared after every step, and "
     "the resulting histories judged by TLC.",
-    "Trusted: TLC, vlib/agentrt.py (loop body of Agent._run executed by the harness), vlib/stepthreads.py. The counter increment and the queue put are one model "
-    "step (the order is decided by the counter). Free-running real threads are not used: every schedule is one TLC explored.", "DESIGN.md section 4 C18")
+    "Trusted: TLC, vlib/stepthreads.py; vlib/agentrt.py for the half of the paths where the loop body is executed by the harness (the other half runs the REAL "
+    "Agent._run thread, parked at Messaging.next_msg and at the end of each iteration). The counter increment and the queue put are one model step (the order is "
+    "decided by the counter). A few free-running executions (real concurrent posting threads) are judged as well.", "DESIGN.md section 4 C18")
+
+CHECKS["C08"] = ("model_checking",
+    "TLC model checking of SyncRounds.tla (all FIFO interleavings, start orders and per-round subsets of written neighbours), replay of the explored transitions on real probe computations built on SynchronousComputationMixin, TLC judging (Judge_C08) of probe, Max-Sum and DSA-tuto executions",
+    "SyncRounds.tla models the mixin's cycle bookkeeping (_current_cycle, _cycle_messages, _next_cycle_messages, implicit synchronisation messages, messages received before "
+    "start and their re-injection) for an arbitrary synchronous algorithm that writes to a nondeterministic subset of its neighbours each round; TLC checks: no sync error, "
+    "on_new_cycle called with consecutive ids and exactly the algorithm messages of the round, neighbour skew <= 1, boxes consistent, no deadlock, on graphs single / pair / "
+    "pair+isolated / path3 / triangle (thorough: star4) with 1-3 rounds. The explored transitions of the smaller configurations are replayed on real probe computations "
+    "(both sending styles) with full state comparison; random 4-round probe executions and real Max-Sum / DSA-tuto executions (3 rounds, seeded schedules incl. lagging "
+    "computations) are judged by TLC.",
+    "Trusted: TLC, the channel plumbing of vlib/props/C08.py and vlib/simrt.py. NCBB is not exercised (its pinned tests fail in this environment; it uses the same mixin).",
+    "DESIGN.md section 4 C08")
 NOT_YET = "check not built yet in this snapshot (work in progress, see DESIGN.md section 9)"
 
 fix_commits = subprocess.run(["git", "-C", "/repo", "log", "--format=%h %s", "aeaae91..HEAD"], capture_output=True, text=True).stdout.splitlines()
